@@ -288,6 +288,19 @@ void vp_sem_store (nsync_atomic_uint32_ *p, uint32_t v, int order);
 #define VP_MU_STORE(p,v,order)
 #endif
 
+#ifdef VP_RG_ONCE
+int vp_once_cas (nsync_atomic_uint32_ *p, uint32_t o, uint32_t n, int order);
+uint32_t vp_once_load (nsync_atomic_uint32_ *p, int order);
+void vp_once_store (nsync_atomic_uint32_ *p, uint32_t v, int order);
+#define VP_ONCE_CAS(p,o,n,order) if ((p) == vp_reg.once_word) return vp_once_cas ((p), (o), (n), (order))
+#define VP_ONCE_LOAD(p,order) if ((p) == vp_reg.once_word) return vp_once_load ((p), (order))
+#define VP_ONCE_STORE(p,v,order) if ((p) == vp_reg.once_word) { vp_once_store ((p), (v), (order)); return; }
+#else
+#define VP_ONCE_CAS(p,o,n,order)
+#define VP_ONCE_LOAD(p,order)
+#define VP_ONCE_STORE(p,v,order)
+#endif
+
 void vp_reg_clear (void) {
 	vp_reg.mu_word = NULL; vp_reg.my_waiting = NULL; vp_reg.cv_word = NULL; vp_reg.once_word = NULL;
 	vp_reg.sem_word = NULL; vp_reg.value_word = NULL; vp_reg.notified_word = NULL;
@@ -296,6 +309,7 @@ void vp_reg_clear (void) {
 int vp_cas (nsync_atomic_uint32_ *p, uint32_t o, uint32_t n, int order) {
 	VP_MU_CAS (p, o, n, order);
 	VP_SEM_CAS (p, o, n, order);
+	VP_ONCE_CAS (p, o, n, order);
 	if (p != vp_reg.my_waiting) *p = vp_nondet_u32 ();   /* unregistered: any environment */
 	if (*p != o) return 0;
 	*p = n;
@@ -304,11 +318,13 @@ int vp_cas (nsync_atomic_uint32_ *p, uint32_t o, uint32_t n, int order) {
 uint32_t vp_load (nsync_atomic_uint32_ *p, int order) {
 	VP_MU_LOAD (p, order);
 	VP_SEM_LOAD (p, order);
+	VP_ONCE_LOAD (p, order);
 	*p = vp_nondet_u32 ();
 	return *p;
 }
 void vp_store (nsync_atomic_uint32_ *p, uint32_t v, int order) {
 	VP_MU_STORE (p, v, order);
 	VP_SEM_STORE (p, v, order);
+	VP_ONCE_STORE (p, v, order);
 	*p = v;
 }
